@@ -79,36 +79,42 @@ def c_slow():
     return f"Definition gen_nb_slow (w h : Z) (torus moore : bool) (x y radius : Z) : list (Z * Z) :=\n  {t}."
 
 
-SKELETON = [
-    "cache_key = (pos, moore, include_center, radius)",   # the tuple itself is extracted separately (grid_cache_key)
-    "neighborhood = self._neighborhood_cache.get(cache_key, None)",
-    "if neighborhood is not None:\n    return neighborhood",
-    "if self.out_of_bounds(pos):\n    raise Exception('The `pos` tuple passed is out of bounds.')",
-    "neighborhood = {}",
-    "x, y = pos",
+SKELETON = [   # statements modulo local-variable names (pyexpr.normalized_statements), message texts and docstrings
+    "v0 = <cache key tuple>",          # the tuple itself is extracted separately (grid_cache_key)
+    "v1 = self._neighborhood_cache.get(v0, None)",
+    "if v1 is not None:\n    return v1",
+    "if self.out_of_bounds(pos):\n    raise Exception(<msg>)",
+    "v1 = {}",
+    "v2, v3 = pos",
     "<loops>",
-    "if not include_center:\n    neighborhood.pop(pos, None)",
-    "self._neighborhood_cache[cache_key] = tuple(neighborhood.keys())",
-    "return tuple(neighborhood.keys())",
+    "if not include_center:\n    v1.pop(pos, None)",
+    "self._neighborhood_cache[v0] = tuple(v1.keys())",
+    "return tuple(v1.keys())",
 ]
 
 
 def c_skeleton():
     """everything of get_neighborhood that is NOT translated expression by expression must be, statement for
     statement, what Model/LegacyNbhd.v:get_neighborhood transcribes (cache lookup first, bounds test, the
-    loops, pop(pos) unless include_center, cache store, return)"""
+    loops, pop(pos) unless include_center, cache store, return).  Compared modulo the names of local variables,
+    the text of the exception message, docstrings, comments and formatting."""
+    import re
+
     fn = T._find_func(_grid(), "get_neighborhood")
     node = _split(fn)
+    body = [st for st in fn.body
+            if not (isinstance(st, ast.Expr) and isinstance(st.value, ast.Constant) and isinstance(st.value.value, str))]
+    norm = pyexpr.normalized_statements(fn)
+    if len(norm) != len(body):
+        raise T.Broken("cannot align normalised statements")
     got = []
-    for st in fn.body:
-        if isinstance(st, ast.Expr) and isinstance(st.value, ast.Constant) and isinstance(st.value.value, str):
-            continue
+    for st, txt in zip(body, norm):
         if st is node:
             got.append("<loops>")
-        elif isinstance(st, ast.Assign) and ast.unparse(st.targets[0]) == "cache_key":
-            got.append(SKELETON[0])   # checked by grid_cache_key
+        elif isinstance(st, ast.Assign) and isinstance(st.value, ast.Tuple) and ast.unparse(st.targets[0]) == "cache_key":
+            got.append("v0 = <cache key tuple>")
         else:
-            got.append(ast.unparse(st))
+            got.append(re.sub(r"raise Exception\((['\"]).*\1\)", "raise Exception(<msg>)", txt))
     if got != SKELETON:
         diff = [f"{a!r} != {b!r}" for a, b in zip(got, SKELETON) if a != b] or [f"{len(got)} statements, expected {len(SKELETON)}"]
         raise T.Broken("statement skeleton of get_neighborhood changed: " + diff[0][:200])
